@@ -14,7 +14,7 @@ from labrea import Option
 from labrea.collections import evaluatable_tuple
 
 from engine.api import harness
-from engine.hutil import note, untraced
+from engine.hutil import note, outcome, untraced
 from engine.stubs import canon
 
 
@@ -87,3 +87,32 @@ def hash_seed(perm: int, a: int, b: int, c: int) -> int:
         permuted = node.fingerprint(o)
     note("permutation", perm, "fingerprints equal", base == permuted)
     return 2 if base == permuted else 0
+
+
+from labrea import cached
+
+
+@harness("C03", lemma="same-object-mutated", stubs=("S1",), example=dict(a1=1, a2=2, d1=0, d2=1), timeout=300,
+         bounds="ONE dictionary object updated in place between calls (a reported value changes; the dispatch value changes the key set)",
+         what="the fingerprint is a function of the reported keys and their values at the time of the call: it changes exactly when they "
+              "change, also when the same dictionary object is passed again after an in-place update (and a cached node follows)")
+def same_object_mutated(a1: int, a2: int, d1: int, d2: int) -> int:
+    from labrea import switch
+
+    node = switch("D", {0: Option("A"), 1: Option("B", -1)}, Option("A"))
+    c = cached(node)
+    o = {"A": a1, "D": d1, "B": 5}
+    f1 = node.fingerprint(o)
+    v1 = outcome(lambda: c(o))
+    o["A"] = a2
+    o["D"] = d2
+    f2 = node.fingerprint(o)
+    v2 = outcome(lambda: c(o))
+    fresh = node.fingerprint(dict(o))
+    exp2 = (5 if d2 == 1 else a2)
+    note("first", (a1, d1), "then in place", (a2, d2), "fingerprints equal", f1 == f2, "values", v1, v2)
+    if f2 != fresh:
+        return 0
+    if v2[0] != "ok" or not (v2[1] == exp2):
+        return 0
+    return 2
